@@ -667,3 +667,31 @@ Example example_all_parse :
         PESData_Header := Some {| PESHeader_OptionalHeader := Some (observed_all example_all 3);
                                   PESHeader_PacketLength := 0; PESHeader_StreamID := 192 |} |}.
 Proof. vm_compute. reflexivity. Qed.
+
+(* writePESHeader as a whole emits the reference encoding of the packet header *)
+Theorem write_ref_header h n : wf_header h -> 0 <= n ->
+  let sid := PESHeader_StreamID h in
+  let L := ref_packet_length sid (ref_opt_len h) n in
+  exists its k, enc_pes_header h n = Ok (its, k) /\ k = Z.of_nat (length (bytes_of_items its)) /\
+    bytes_of_items its =
+      match PESHeader_OptionalHeader h with
+      | Some oh => if lib_has_optional_header sid then ref_pes_bytes sid L oh [] 0 else ref_pes_bytes_noopt sid L
+      | None => ref_pes_bytes_noopt sid L
+      end.
+Proof.
+  intros Wh Hn sid L. pose proof (packet_length_ref h n Wh) as HL. destruct Wh as [Hs Ho].
+  fold sid in Hs, Ho, HL. fold L in HL.
+  unfold enc_pes_header. fold sid. rewrite HL. fold (head_items sid L). rewrite has_opt_lib.
+  destruct (aligned_bytes _ _ (head_aligned sid L)) as [Hlh _].
+  destruct (lib_has_optional_header sid) eqn:El.
+  - destruct (Ho eq_refl) as (oh & Eo & W). rewrite Eo. rewrite (enc_opt_ok oh W). cbn [res_bind].
+    pose proof (opt_aligned oh W) as Ao. destruct (aligned_bytes _ _ Ao) as [Hlo _].
+    destruct (write_ref oh W) as (its' & n' & E1 & E2 & _). rewrite (enc_opt_ok oh W) in E1. injection E1 as <- <-.
+    eexists _, _. split; [reflexivity|].
+    rewrite (bytes_of_items_app _ _ 6 (head_aligned sid L)) by apply Ao. split.
+    + rewrite app_length, Hlh, Hlo. unfold C_pesHeaderLength.
+      destruct (part_lens_nonneg' oh W) as (N1 & N2 & N3 & N4 & N5 & N6). unfold opt_len in *. lia.
+    + unfold ref_pes_bytes. rewrite head_bytes_ref, E2. reflexivity.
+  - eexists _, _. split; [reflexivity|]. split; [rewrite Hlh; reflexivity|].
+    unfold ref_pes_bytes_noopt. rewrite head_bytes_ref. destruct (PESHeader_OptionalHeader h); reflexivity.
+Qed.
